@@ -34,8 +34,6 @@ name = "demo_%s_%s" % (ID.lower(), X.lower())
 
 def run_demo():
     if os.path.exists(demo_sh):
-        if os.path.exists(demo_rs):
-            shutil.copy(demo_rs, os.path.join(os.path.dirname(demo_sh), X + ".demo.rs"))
         cmd = "bash %s %s" % (demo_sh, wt)
         rc, o = sh(cmd)
         ran.append(cmd)
